@@ -103,5 +103,51 @@ pub fn collapse_in_instance(&mut self, Ghost(k): Ghost<(Seq<char>, Seq<Ty>)>, ty
         ensures collapsed(r, old(self).known()), {KEEP}
             (*ty is TEnum || *ty is TStruct) ==> r == *ty,""",
            loops={0: minv(0, "args"), 1: minv(1, "args"), 2: minv(2, "typs"), 3: minv(3, "params")}),
+        # mono(): the field types of the NON-generic definitions are specialised too (two map expressions of its tail, as fragments)
+        Fn(file=M, name="mono", rename="plain_struct_fields", ret="r", attrs=BOTH, optional=False,
+           cut_from=re.compile(r"let fields = def\s*\.fields\s*\.iter\(\)"), cut_before="if let Some(slot) = m.monoenv.struct_def_mut(", cut_tail="    fields",
+           sig="fn plain_struct_fields<'a>(m: &mut TypeMono<'a>, def: &StructDef) -> Vec<(TastIdent, Ty)>",
+           rewrites=[(re.compile(r"\bname\.clone\(\)"), "ident_clone(name)", "*"), (re.compile(r"\bty\.clone\(\)"), "ty_clone(ty)", "*"),
+                     (re.compile(r"let fields = \{ let mut (__mo\d+) = Vec::new\(\);"), r"let fields = { let mut \1: Vec<(TastIdent, Ty)> = Vec::new();", 1)],
+           obligation="the field types written back into a non-generic struct definition are fully specialised (no application of a generic enum/struct "
+                      "remains), one per field, names and order kept",
+           contract="""requires old(m).defs_ok(), structdef_ok(*def, old(m).enum_base, old(m).struct_base),
+        ensures r@.len() == def.fields@.len(), final(m).enum_base == old(m).enum_base, final(m).struct_base == old(m).struct_base,
+            forall|i: int| 0 <= i < r@.len() ==> (#[trigger] r@[i]).0 == def.fields@[i].0 && collapsed(r@[i].1, old(m).known()),""",
+           loop_fn=lambda k, header, kw: ("invariant __mi0 <= def.fields.len(), __mo0@.len() == __mi0, m.enum_base == old(m).enum_base, m.struct_base == old(m).struct_base, m.defs_ok(),\n"
+                                          "  forall|j: int| 0 <= j < __mi0 ==> (#[trigger] __mo0@[j]).0 == def.fields@[j].0 && collapsed(__mo0@[j].1, old(m).known()),\n"
+                                          "decreases def.fields.len() - __mi0,")),
+        Fn(file=M, name="mono", rename="plain_enum_variants", ret="r", attrs=BOTH,
+           cut_from=re.compile(r"let variants = def\s*\.variants\s*\.iter\(\)"), cut_before="m.monoenv.genv.insert_enum(EnumDef {", cut_tail="    variants",
+           sig="fn plain_enum_variants<'a>(m: &mut TypeMono<'a>, def: &EnumDef) -> Vec<(TastIdent, Vec<Ty>)>",
+           rewrites=[(re.compile(r"\bname\.clone\(\)"), "ident_clone(name)", "*"), (re.compile(r"\bty\.clone\(\)"), "ty_clone(ty)", "*"),
+                     (re.compile(r"let variants = \{ let mut (__mo\d+) = Vec::new\(\);"), r"let variants = { let mut \1: Vec<(TastIdent, Vec<Ty>)> = Vec::new();", 1),
+                     (re.compile(r"let tys = \{ let mut (__mo\d+) = Vec::new\(\);"), r"let tys = { let mut \1: Vec<Ty> = Vec::new();", 1)],
+           obligation="the payload types written back into a non-generic enum definition are fully specialised, one list per variant, names and order kept",
+           contract="""requires old(m).defs_ok(), enumdef_ok(*def, old(m).enum_base, old(m).struct_base),
+        ensures r@.len() == def.variants@.len(), final(m).enum_base == old(m).enum_base, final(m).struct_base == old(m).struct_base,
+            forall|i: int| 0 <= i < r@.len() ==> (#[trigger] r@[i]).0 == def.variants@[i].0 && r@[i].1@.len() == def.variants@[i].1@.len()
+                && forall|j: int| 0 <= j < r@[i].1@.len() ==> collapsed(#[trigger] r@[i].1@[j], old(m).known()),""",
+           loop_fn=lambda k, header, kw, body=None: PLAIN_ENUM_LOOPS(header)),
     ],
 )
+
+
+
+def PLAIN_ENUM_LOOPS(header):
+    keep = "m.enum_base == old(m).enum_base, m.struct_base == old(m).struct_base, m.defs_ok(),"
+    if re.search(r"while\s+__mi\d+\s*<\s*def\s*\.variants", header):
+        mt = re.search(r"__mi(\d+)", header)
+        k = mt.group(1)
+        return (f"invariant __mi{k} <= def.variants.len(), __mo{k}@.len() == __mi{k}, {keep}\n"
+                f"  forall|i: int| 0 <= i < __mi{k} ==> (#[trigger] __mo{k}@[i]).0 == def.variants@[i].0 && __mo{k}@[i].1@.len() == def.variants@[i].1@.len()\n"
+                f"    && forall|j: int| 0 <= j < __mo{k}@[i].1@.len() ==> collapsed(#[trigger] __mo{k}@[i].1@[j], old(m).known()),\n"
+                f"decreases def.variants.len() - __mi{k},")
+    mt = re.search(r"while\s+__mi(\d+)\s*<\s*tys\.len\(\)", header)
+    if mt:
+        k = mt.group(1)
+        return (f"invariant __mi{k} <= tys.len(), __mo{k}@.len() == __mi{k}, {keep}\n"
+                f"  forall|j: int| 0 <= j < tys@.len() ==> twf(#[trigger] tys@[j], old(m).enum_base, old(m).struct_base),\n"
+                f"  forall|j: int| 0 <= j < __mi{k} ==> collapsed(#[trigger] __mo{k}@[j], old(m).known()),\n"
+                f"decreases tys.len() - __mi{k},")
+    return None
